@@ -478,6 +478,34 @@ class _Normalise(ast.NodeTransformer):
                 return ast.copy_location(t, node)
         return node
 
+    def visit_Assign(self, node):
+        # x = next((E for v in S if C), D)  is the search loop
+        #   for v in S:
+        #       if C: x = E; break
+        #   else: x = D
+        self.generic_visit(node)
+        v = node.value
+        if len(node.targets) == 1 and isinstance(node.targets[0], ast.Name) \
+                and isinstance(v, ast.Call) and \
+                isinstance(v.func, ast.Name) and v.func.id == 'next' and \
+                len(v.args) == 2 and not v.keywords and \
+                isinstance(v.args[0], ast.GeneratorExp) and \
+                len(v.args[0].generators) == 1 and \
+                not v.args[0].generators[0].is_async:
+            g = v.args[0].generators[0]
+            tgt = node.targets[0]
+            hit = [ast.Assign(targets=[ast.Name(id=tgt.id, ctx=ast.Store())],
+                              value=v.args[0].elt), ast.Break()]
+            body = hit
+            for c in reversed(g.ifs):
+                body = [ast.If(test=c, body=body, orelse=[])]
+            loop = ast.For(target=g.target, iter=g.iter, body=body,
+                           orelse=[ast.Assign(
+                               targets=[ast.Name(id=tgt.id, ctx=ast.Store())],
+                               value=v.args[1])])
+            return ast.copy_location(loop, node)
+        return node
+
     def visit_Try(self, node):
         self.generic_visit(node)
         if node.finalbody or len(node.handlers) != 1 or len(node.body) != 1:
